@@ -47,7 +47,7 @@ import (
 )
 
 const (
-	batchTimeout = 80 * time.Second
+	batchTimeout = 4 * time.Second
 	tick         = batchTimeout / 4 // period of the stale-batch ticker
 	halfTick     = tick / 2
 	maxEventSize = 1_000_000 // statement: "serializes to more than 1 MB"
@@ -79,12 +79,19 @@ var dests = map[string]dest{
 type vclock struct {
 	*clockwork.FakeClock
 	mu    sync.Mutex
+	auto  bool        // teardown: Sleep returns at once
 	wakes []time.Time // wake-up instants of goroutines currently inside Sleep
 	slept []string    // log of requested sleep durations
 }
 
+func (c *vclock) setAuto() { c.mu.Lock(); c.auto = true; c.mu.Unlock() }
+
 func (c *vclock) Sleep(d time.Duration) {
 	c.mu.Lock()
+	if c.auto {
+		c.mu.Unlock()
+		return
+	}
 	wake := c.FakeClock.Now().Add(d)
 	c.wakes = append(c.wakes, wake)
 	c.slept = append(c.slept, d.String())
@@ -169,7 +176,10 @@ type memnet struct {
 	mu      sync.Mutex
 	parked  []*call
 	arrived int
+	auto    bool // teardown: answer 200 immediately instead of parking
 }
+
+func (n *memnet) setAuto() { n.mu.Lock(); n.auto = true; n.mu.Unlock() }
 
 type timeoutError struct{}
 
@@ -194,9 +204,14 @@ func (n *memnet) RoundTrip(r *http.Request) (*http.Response, error) {
 	c := &call{req: q, reply: make(chan reply, 1)}
 	n.mu.Lock()
 	n.arrived++
-	q.Seq = n.arrived
-	n.parked = append(n.parked, c)
+	auto := n.auto
+	if !auto {
+		n.parked = append(n.parked, c)
+	}
 	n.mu.Unlock()
+	if auto {
+		c.reply <- reply{status: 200, header: map[string]string{"Content-Type": "application/json"}, body: []byte("[]")}
+	}
 	rep := <-c.reply // parked until the harness answers (deterministic order, see file comment)
 	if rep.err != nil {
 		return nil, rep.err
@@ -377,6 +392,9 @@ func parseStates(b []byte) (bool, string) {
 			}
 		}
 		if !ok {
+			if bytes.Contains(rec, []byte("runtime/pprof.profileWriter")) {
+				continue // only present when the harness itself is being profiled (C26_PROF)
+			}
 			return false, st
 		}
 	}
@@ -432,17 +450,18 @@ type world struct {
 	script   []answer
 	spos     int
 
-	events   map[string]*sentEvent
-	order    []string
-	inBatch  map[string]*batch // event id -> batch
-	batches  map[string]*batch // batch key -> batch
-	blist    []*batch
-	reqs     []*request
-	stopped  bool
-	stopDone chan struct{}
+	events    map[string]*sentEvent
+	order     []string
+	inBatch   map[string]*batch // event id -> batch
+	batches   map[string]*batch // batch key -> batch
+	blist     []*batch
+	reqs      []*request
+	stopped   bool
+	idleAtEnd bool
+	stopDone  chan struct{}
 	stopPanic any
-	trace    []string
-	fail     *failure
+	trace     []string
+	fail      *failure
 }
 
 type failure struct{ Sig, What string }
@@ -473,7 +492,11 @@ func newWorld(m int, compress bool, script []answer) *world {
 	if err := w.d.Start(); err != nil {
 		ev.Harness("Start: %v", err)
 	}
-	quiesce() // the dispatch goroutine has created its tickers and is parked in select
+	// the dispatch goroutine registers its two tickers on the fake clock before it first selects; from then
+	// on no advance can be missed (ticker channels are buffered)
+	if err := w.clk.BlockUntilContext(context.Background(), 2); err != nil {
+		ev.Harness("tickers: %v", err)
+	}
 	return w
 }
 
@@ -591,7 +614,10 @@ func (w *world) stop() {
 	}
 }
 
-// settle brings the system to quiescence with no parked round trip, answering parked ones in canonical order.
+// settle brings the system to quiescence with no parked round trip. Each round: wait for quiescence, take ALL
+// parked round trips in canonical order, give them the next script answers in that order, release them. The
+// sends then proceed concurrently, but they only share commutative metric updates, and whatever they request
+// next parks again and is ordered canonically in the next round.
 func (w *world) settle() {
 	for {
 		quiesce()
@@ -599,29 +625,34 @@ func (w *world) settle() {
 		if len(p) == 0 {
 			break
 		}
-		// record every newly arrived request (canonical order) before answering one
 		for _, c := range p {
-			if !c.req.recorded {
-				c.req.recorded = true
-				c.req.At = w.now()
-				w.reqs = append(w.reqs, c.req)
-				w.checkRequest(c.req)
+			c.req.Seq = len(w.reqs) + 1 // numbered in canonical order, not arrival order
+			c.req.At = w.now()
+			w.reqs = append(w.reqs, c.req)
+			w.checkRequest(c.req)
+		}
+		for _, c := range p {
+			a := answer{Kind: "ok"}
+			if w.spos < len(w.script) {
+				a = w.script[w.spos]
 			}
+			w.spos++
+			w.noteAnswer(c.req, a)
+			w.net.release(c, w.buildReply(a, c.req))
 		}
-		c := p[0]
-		a := answer{Kind: "ok"}
-		if w.spos < len(w.script) {
-			a = w.script[w.spos]
-		}
-		w.spos++
-		w.noteAnswer(c.req, a)
-		w.net.release(c, w.buildReply(a, c.req))
 	}
 	w.checkQuiescent()
 }
 
-// teardown releases everything the execution still holds (not judged).
+// teardown releases everything the execution still holds (not judged): the network answers 200 by itself from
+// now on, new sleeps return at once, the real Stop() runs, and goroutines already inside a retry sleep are woken
+// by one clock jump once the dispatcher (and with it both tickers) is gone.
 func (w *world) teardown() {
+	w.net.setAuto()
+	w.clk.setAuto()
+	for _, c := range w.net.takeParked() {
+		w.net.release(c, w.buildReply(answer{Kind: "ok"}, c.req))
+	}
 	if w.stopDone == nil {
 		w.stopDone = make(chan struct{})
 		go func() {
@@ -630,23 +661,13 @@ func (w *world) teardown() {
 			w.d.Stop()
 		}()
 	}
-	for i := 0; i < 1000; i++ {
+	quiesce()
+	if w.clk.sleepers() > 0 {
+		w.clk.Advance(2 * time.Minute)
 		quiesce()
-		select {
-		case <-w.stopDone:
-			return
-		default:
-		}
-		if p := w.net.takeParked(); len(p) > 0 {
-			w.net.release(p[0], w.buildReply(answer{Kind: "ok"}, p[0].req))
-			continue
-		}
-		wake, ok := w.clk.earliestWake()
-		if !ok {
-			return // deadlocked execution (already reported); its goroutines stay parked forever
-		}
-		w.clk.Advance(wake.Sub(w.clk.Now()))
 	}
+	// a Stop() that is still blocked now is deadlocked (reported by the histories that contain stop); its
+	// goroutines stay parked for the rest of the process and do not disturb the barrier.
 }
 
 // ---------------------------------------------------------------------------------------------
@@ -654,7 +675,7 @@ func (w *world) teardown() {
 
 type answer struct {
 	Kind string // ok, okmp, everr, short, 400, 401, 500, 429, 503, timeout, garbage
-	RA   string // Retry-After for 429/503: "", "0", "1", "59", "60", "date" (= now+30s as an HTTP-date), "past"
+	RA   string // Retry-After for 429/503: "", "0", "1", "59", "60", "date" (= now+2s as an HTTP-date), "past" (= now-2s)
 }
 
 func (a answer) String() string {
@@ -708,9 +729,9 @@ func (w *world) buildReply(a answer, q *request) reply {
 		switch a.RA {
 		case "":
 		case "date":
-			h["Retry-After"] = w.clk.Now().Add(30 * time.Second).UTC().Format(http.TimeFormat)
+			h["Retry-After"] = w.clk.Now().Add(2 * time.Second).UTC().Format(http.TimeFormat)
 		case "past":
-			h["Retry-After"] = w.clk.Now().Add(-30 * time.Second).UTC().Format(http.TimeFormat)
+			h["Retry-After"] = w.clk.Now().Add(-2 * time.Second).UTC().Format(http.TimeFormat)
 		default:
 			h["Retry-After"] = a.RA
 		}
